@@ -166,13 +166,15 @@ func (vm *VM) generateEmbeddedReceive(fromBlockHash types.Hash) (*nom.AccountBlo
 	}
 	method, err := embedded.GetEmbeddedMethod(vm.context, sendBlock.ToAddress, sendBlock.Data)
 
+	// rollbackEmbedded resets the context to this snapshot, so it must exist on every path that reaches it
+	vm.context.Save()
+
 	// can happen when a method is deleted in a spork (height 100) and someone calls it before the spork (height 95)
 	// and the autoReceive uses momentum height 105 for various reasons
 	if err == constants.ErrContractMethodNotFound {
 		return vm.rollbackEmbedded(fromBlockHash, err)
 	}
 
-	vm.context.Save()
 	// balance
 	vm.context.AddBalance(&sendBlock.TokenStandard, sendBlock.Amount)
 	// call code
